@@ -40,4 +40,150 @@ theorem repaired_of_full_rank (t : Trace) (lat : Mat4) (h : (toM lat).det ≠ 0)
   have := (guard_pass_iff lat).mpr h
   simp [lllRepaired, this]
 
+
+/-! ### full rank ⇒ every exact Gram-Schmidt norm is positive (the zero test can never fire in exact arithmetic) -/
+
+/-- integer combination of the rows of `m` with coefficient vector `v` -/
+def comb (v : Vec4) (m : Mat4) : Vec4 :=
+  (((sm v.x0 m.r0).add (sm v.x1 m.r1)).add (sm v.x2 m.r2)).add (sm v.x3 m.r3)
+
+theorem comb_sub (a b : Vec4) (m : Mat4) : comb (a.sub b) m = (comb a m).sub (comb b m) := by
+  simp only [comb, sm, Vec4.sub, Vec4.add]; apply vec4_ext <;> ring
+
+theorem comb_sm (k : Int) (a : Vec4) (m : Mat4) : comb (sm k a) m = sm k (comb a m) := by
+  simp only [comb, sm, Vec4.add]; apply vec4_ext <;> ring
+
+theorem comb_e0 (m : Mat4) : comb ⟨1, 0, 0, 0⟩ m = m.r0 := by
+  simp only [comb, sm, Vec4.add]; apply vec4_ext <;> ring
+theorem comb_e1 (m : Mat4) : comb ⟨0, 1, 0, 0⟩ m = m.r1 := by
+  simp only [comb, sm, Vec4.add]; apply vec4_ext <;> ring
+theorem comb_e2 (m : Mat4) : comb ⟨0, 0, 1, 0⟩ m = m.r2 := by
+  simp only [comb, sm, Vec4.add]; apply vec4_ext <;> ring
+theorem comb_e3 (m : Mat4) : comb ⟨0, 0, 0, 1⟩ m = m.r3 := by
+  simp only [comb, sm, Vec4.add]; apply vec4_ext <;> ring
+
+theorem comb_vecMul (v : Vec4) (m : Mat4) : getF (comb v m) = Matrix.vecMul (getF v) (toM m) := by
+  obtain ⟨⟨a00, a01, a02, a03⟩, ⟨a10, a11, a12, a13⟩, ⟨a20, a21, a22, a23⟩, ⟨a30, a31, a32, a33⟩⟩ := m
+  obtain ⟨v0, v1, v2, v3⟩ := v
+  funext j
+  rcases fin4_cases j with rfl | rfl | rfl | rfl <;>
+    simp [comb, sm, Vec4.add, getF, Matrix.vecMul, dotProduct, Fin.sum_univ_four, toM, getRow] <;> ring
+
+theorem getF_injective {a b : Vec4} (h : getF a = getF b) : a = b := by
+  apply vec4_ext
+  · exact congrFun h 0
+  · exact congrFun h 1
+  · exact congrFun h 2
+  · exact congrFun h 3
+
+/-- a vanishing non-trivial combination of the rows forces det = 0 -/
+theorem det_zero_of_comb {v : Vec4} {m : Mat4} (hv : v ≠ Vec4.zero) (h : comb v m = Vec4.zero) : (toM m).det = 0 := by
+  apply Matrix.exists_vecMul_eq_zero_iff.mp
+  refine ⟨getF v, ?_, ?_⟩
+  · intro h0
+    apply hv
+    apply getF_injective
+    rw [h0]; funext j; rcases fin4_cases j with rfl | rfl | rfl | rfl <;> rfl
+  · rw [← comb_vecMul, h]; funext j; rcases fin4_cases j with rfl | rfl | rfl | rfl <;> rfl
+
+theorem form_pos {q : Int} (hq : 0 < q) {c : Vec4} (hc : c ≠ Vec4.zero) : 0 < form q c c := by
+  obtain ⟨c0, c1, c2, c3⟩ := c
+  simp only [form]
+  have h0 : 0 ≤ c0 * c0 := mul_self_nonneg _
+  have h1 : 0 ≤ c1 * c1 := mul_self_nonneg _
+  have h2 : 0 ≤ c2 * c2 := mul_self_nonneg _
+  have h3 : 0 ≤ c3 * c3 := mul_self_nonneg _
+  by_contra hle
+  have hsum : c0 * c0 + c1 * c1 + q * (c2 * c2 + c3 * c3) ≤ 0 := by omega
+  have hq23 : 0 ≤ q * (c2 * c2 + c3 * c3) := Int.mul_nonneg (Int.le_of_lt hq) (by omega)
+  have e0 : c0 * c0 = 0 := by omega
+  have e1 : c1 * c1 = 0 := by omega
+  have e23 : q * (c2 * c2 + c3 * c3) = 0 := by omega
+  have e23' : c2 * c2 + c3 * c3 = 0 := by
+    rcases Int.mul_eq_zero.mp e23 with h | h
+    · omega
+    · exact h
+  have e2 : c2 * c2 = 0 := by omega
+  have e3 : c3 * c3 = 0 := by omega
+  apply hc
+  simp only [Vec4.zero]
+  rw [mul_self_eq_zero.mp e0, mul_self_eq_zero.mp e1, mul_self_eq_zero.mp e2, mul_self_eq_zero.mp e3]
+
+/-- **exact Gram-Schmidt norms of a full-rank basis are positive** (q > 0) -/
+theorem gsData_pos_of_det {q : Int} (hq : 0 < q) {m : Mat4} (hd : (toM m).det ≠ 0) : (gsData q m).pos = true := by
+  -- coefficient vectors of the scaled Gram-Schmidt vectors
+  let g := gsData q m
+  let v0 : Vec4 := ⟨1, 0, 0, 0⟩
+  let v1 : Vec4 := (sm g.n0 ⟨0, 1, 0, 0⟩).sub (sm g.t10 v0)
+  let v2 : Vec4 := ((sm (g.n0 * g.n1) ⟨0, 0, 1, 0⟩).sub (sm (g.t20 * g.n1) v0)).sub (sm (g.t21 * g.n0) v1)
+  let v3 : Vec4 := (((sm (g.n0 * g.n1 * g.n2) ⟨0, 0, 0, 1⟩).sub (sm (g.t30 * (g.n1 * g.n2)) v0)).sub
+      (sm (g.t31 * (g.n0 * g.n2)) v1)).sub (sm (g.t32 * (g.n0 * g.n1)) v2)
+  have c0 : g.c0 = comb v0 m := (comb_e0 m).symm
+  have c1 : g.c1 = comb v1 m := by
+    show (sm g.n0 m.r1).sub (sm g.t10 g.c0) = _
+    rw [comb_sub, comb_sm, comb_sm, comb_e1, ← c0]
+  have c2 : g.c2 = comb v2 m := by
+    show ((sm (g.n0 * g.n1) m.r2).sub (sm (g.t20 * g.n1) g.c0)).sub (sm (g.t21 * g.n0) g.c1) = _
+    rw [comb_sub, comb_sub, comb_sm, comb_sm, comb_sm, comb_e2, ← c0, ← c1]
+  have c3 : g.c3 = comb v3 m := by
+    show (((sm (g.n0 * g.n1 * g.n2) m.r3).sub (sm (g.t30 * (g.n1 * g.n2)) g.c0)).sub
+      (sm (g.t31 * (g.n0 * g.n2)) g.c1)).sub (sm (g.t32 * (g.n0 * g.n1)) g.c2) = _
+    rw [comb_sub, comb_sub, comb_sub, comb_sm, comb_sm, comb_sm, comb_sm, comb_e3, ← c0, ← c1, ← c2]
+  have key : ∀ (v : Vec4) (c : Vec4), c = comb v m → v ≠ Vec4.zero → 0 < form q c c := by
+    intro v c hc hv
+    apply form_pos hq
+    intro hz
+    exact hd (det_zero_of_comb hv (by rw [← hc, hz]))
+  have p0 : 0 < g.n0 := key v0 g.c0 c0 (by decide)
+  have x1 : v1.x1 = g.n0 := by simp [v1, v0, sm, Vec4.sub]
+  have p1 : 0 < g.n1 := key v1 g.c1 c1 (by
+    intro h; have : v1.x1 = 0 := by rw [h]; rfl
+    omega)
+  have x2 : v2.x2 = g.n0 * g.n1 := by simp [v2, v1, v0, sm, Vec4.sub]
+  have p01 : 0 < g.n0 * g.n1 := Int.mul_pos p0 p1
+  have p2 : 0 < g.n2 := key v2 g.c2 c2 (by
+    intro h; have : v2.x2 = 0 := by rw [h]; rfl
+    omega)
+  have x3 : v3.x3 = g.n0 * g.n1 * g.n2 := by simp [v3, v2, v1, v0, sm, Vec4.sub]
+  have p012 : 0 < g.n0 * g.n1 * g.n2 := Int.mul_pos p01 p2
+  have p3 : 0 < g.n3 := key v3 g.c3 c3 (by
+    intro h; have : v3.x3 = 0 := by rw [h]; rfl
+    omega)
+  simp only [GS.pos, Bool.and_eq_true, decide_eq_true_eq]
+  exact ⟨⟨⟨p0, p1⟩, p2⟩, p3⟩
+
+
+/-- at every moment of the run the current basis still has non-zero determinant -/
+theorem det_run_ne_zero (ops : List Op) (hv : ∀ op ∈ ops, op.valid = true) (b : Mat4) (hd : (toM b).det ≠ 0) :
+    (toM (run ops b).1).det ≠ 0 := by
+  obtain ⟨h1, v, hv1, _, _⟩ := run_spec ops hv b
+  have e1 : toM (run ops b).1 = toM (run ops b).2 * toM b := by rw [← toM_mul, ← h1]
+  have hu : (toM (run ops b).2).det = 1 ∨ (toM (run ops b).2).det = -1 := by
+    apply det_unit_of_mul_eq_one _ (toM v)
+    rw [← toM_mul, hv1, toM_identity]
+  rw [e1, Matrix.det_mul]
+  rcases hu with h | h <;> rw [h] <;> simpa using hd
+
+theorem exactZeroTest_false {q : Int} (hq : 0 < q) (ops : List Op) (hv : ∀ op ∈ ops, op.valid = true) (lat : Mat4)
+    (hd : (toM lat).det ≠ 0) : exactZeroTest q (run ops lat.transpose).1 = false := by
+  have hdt : (toM lat.transpose).det ≠ 0 := by rw [toM_transpose, Matrix.det_transpose]; exact hd
+  have := gsData_pos_of_det hq (det_run_ne_zero ops hv lat.transpose hdt)
+  simp [exactZeroTest, this]
+
+/-- after both repairs a full-rank lattice is never rejected -/
+theorem repaired2_of_full_rank {q : Int} (hq : 0 < q) (ops : List Op) (hv : ∀ op ∈ ops, op.valid = true) (lat : Mat4)
+    (hd : (toM lat).det ≠ 0) : lllRepaired2 q ops lat = (0, some (runCols ops lat)) := by
+  have hg := (guard_pass_iff lat).mpr hd
+  have hall : (List.range (ops.length + 1)).any (fun n => exactZeroTest q (run (ops.take n) lat.transpose).1) = false := by
+    rw [List.any_eq_false]
+    intro n _
+    have := exactZeroTest_false hq (ops.take n) (fun o ho => hv o (List.mem_of_mem_take ho)) lat hd
+    simp [this]
+  simp [lllRepaired2, hg, hall]
+
+theorem repaired2_of_singular (q : Int) (ops : List Op) (lat : Mat4) (h : (toM lat).det = 0) :
+    lllRepaired2 q ops lat = (-1, none) := by
+  have := (guard_fail_iff lat).mpr h
+  simp [lllRepaired2, this]
+
 end SqiProofs.LllGuard
